@@ -271,6 +271,7 @@ def l2_check(run):
                     "detail": {"input": xobs, "input_fold": _input_fold(run, a, op), "unit": u, "model": answers,
                                "week_candidates": [cands["week_start"], cands["week_end"]]},
                     "facts": {"which": op[2], "boundary": boundary, "type": xobs[0],
+                              "class": "%s/%s/fold%s" % (op[2], boundary, _input_fold(run, a, op)),
                               "raises": robs[1] if isinstance(robs, list) and robs and robs[0] == "EXC" else None},
                     "sig_extra": [boundary],
                 })
